@@ -11,6 +11,7 @@ from rustlex import AnchorError
 SEMANTIC = [
     (r"^postcondition not satisfied", "post"),
     (r"^precondition not satisfied", "pre"),
+    (r"fails to satisfy `callee\.requires", "pre"),
     (r"^(loop )?invariant not satisfied", "inv"),
     (r"^assertion failed", "assert"),
     (r"^decreases not satisfied", "decreases"),
